@@ -34,6 +34,9 @@ mod cloud;
 #[cfg(feature = "server-git")]
 mod gitsync;
 
+#[cfg(all(gothenburgbitfactory_taskchampion_verif, feature = "cloud", feature = "encryption"))]
+pub mod verif;
+
 pub use config::*;
 pub use types::*;
 
